@@ -16,6 +16,8 @@ FUNCS = ["p_ini_file_new", "p_ini_file_parse", "p_ini_file_free", "p_ini_file_is
          "p_ini_file_is_key_exists", "p_ini_file_parameter_string", "pp_ini_file_find_parameter", "pp_ini_file_parameter_new",
          "pp_ini_file_section_new", "pp_ini_file_parameter_free", "pp_ini_file_section_free", "p_strchomp", "p_strdup",
          "p_list_prepend", "p_list_append", "p_list_free", "p_malloc", "p_malloc0", "p_free"]
+BACKSTOP = 64   # global --unwind for loops NOT in the unwindset (none in the unchanged build except constant-bound harness loops):
+                # if an edit makes a unit call a libc function without a model here, CBMC's built-in body is still unwound finitely
 KF1 = "C16_comment_line_key"
 KF2 = "C16_quoted_empty_pair"
 
@@ -72,7 +74,10 @@ def uw(L, nlines, nsec, nkey, extra=None):
     return data + 1, nsec/nkey = list lengths + 1"""
     S = L + 2
     n = max(nsec, nkey)
-    d = {"vm_sscanf.0": 4, "vm_sscanf.1": S, "vm_sscanf.2": S, "vm_sscanf.3": 3, "vm_sscanf.4": 5, "vm_sscanf.5": S, "vm_sscanf.6": 10,
+    d = {"vm_sscanf.0": 4, "vm_sscanf.1": S, "vm_sscanf.2": S, "vm_sscanf.3": 3, "vm_sscanf.4": S, "vm_sscanf.5": 5, "vm_sscanf.6": S, "vm_sscanf.7": 10,
+         # models of libc parsers/comparisons the unchanged sources do not call (an edit may): bounded by the string length
+         "vm_scan_int.0": S, "vm_scan_int.1": S, "vm_scan_float.0": S, "vm_scan_float.1": S, "vm_scan_float.2": S, "vm_scan_float.3": S,
+         "vm_scan_float.4": 24, "vm_strncmp.0": S, "vm_strcasecmp.0": S, "vm_strncasecmp.0": S,
          "vm_in_set.0": 4, "vm_fgets.0": S, "p_strchomp.0": S, "p_strchomp.1": S,
          "p_ini_file_parse.0": nlines + 1,
          "p_ini_file_keys.0": nsec, "p_ini_file_keys.1": nkey, "p_ini_file_sections.0": nsec,
@@ -95,7 +100,7 @@ def mk(name, harness, maxline, defs, nlines, nsec, nkey, bounds, kf=None, timeou
     b = dict(bounds)
     b.update({"P_INI_FILE_MAX_LINE": maxline, "string_block_bytes": maxline + 1, "symbolic_bytes": "any of 256 values (no new-line inside a line body)"})
     return Q(name, harness, units=UNITS, models=MODELS, defs=base + defs, includes=["models/redir_ini.h"], export_local=True,
-             remove_bodies=["p_list_foreach"], unwindset=uw(L if L is not None else maxline, nlines, nsec, nkey, extra_uw),
+             remove_bodies=["p_list_foreach"], unwind=BACKSTOP, unwindset=uw(L if L is not None else maxline, nlines, nsec, nkey, extra_uw),
              object_bits=12, kf=kf, funcs=funcs or FUNCS, bounds=b, timeout=timeout, mem_gb=mem_gb)
 
 
@@ -164,7 +169,7 @@ def queries(tier):
     sdefs = ["__NO_CTYPE", "VM_STRBLK=16"]
     SMAX = 8 if quick else 12
     qs.append(Q("strchomp_len%d" % SMAX, "harness/C16_chomp.c", units=SU, models=SM, defs=sdefs + ["SMAX=%d" % SMAX], includes=["models/redir_ini.h"],
-                unwindset=uw(SMAX, 1, 1, 1), object_bits=12, funcs=["p_strchomp", "p_strdup", "p_malloc0"],
+                unwind=BACKSTOP, unwindset=uw(SMAX, 1, 1, 1), object_bits=12, funcs=["p_strchomp", "p_strdup", "p_malloc0"],
                 bounds={"string": "any bytes, length 0..%d" % SMAX}, timeout=T))
     DL = 4 if quick else 5
     for shape in range(1, DL + 1):
@@ -172,7 +177,7 @@ def queries(tier):
             continue      # marker in the last position: no exponent digits, never a number
         wit = ["WIT_POINT"] if shape == DL else (["WIT_EXP"] if shape <= DL - 3 else [])
         qs.append(Q("strtod_len%d_e%d" % (DL, shape), "harness/C16_strtod.c", units=SU, models=SM, defs=sdefs + ["DLEN=%d" % DL, "SHAPE=%d" % shape] + wit,
-                    includes=["models/redir_ini.h"], unwindset=uw(DL, 1, 1, 1), object_bits=12, funcs=["p_strtod", "p_strchomp"],
+                    includes=["models/redir_ini.h"], unwind=BACKSTOP, unwindset=uw(DL, 1, 1, 1), object_bits=12, funcs=["p_strtod", "p_strchomp"],
                     bounds={"string": "all strings of length 0..%d over [0-9.eE+-]" % DL, "exponent_marker_at": shape if shape < DL else "none",
                             "compared": "<= 4 mantissa digits, |decimal exponent| <= 22, relative tolerance 1e-14"}, timeout=T))
     return qs
